@@ -389,7 +389,9 @@ def run(ctx):
         deep = [q for q in params if q['pushes'] in (['burst'], ['pingx'], ['ping_msg']) and q['nsend'] == 3] + \
                [q for q in params if q['mode'] in ('upgrade_wrong', 'upgrade_refused') and q['pushes'] == ['burst'] and q['nsend'] == 3]
     else:
-        deep = [q for q in params if (len(q['pushes']) <= 1 and q['nsend'] in (0, 2)) or q['mode'].startswith('upgrade_')]
+        # two deviations only where the two scripts really race: one burst against two sends, on each transport
+        deep = [q for q in params if q['pushes'] == ['burst'] and q['nsend'] == 2 and q['mode'] in ('polling', 'websocket', 'upgrade_ok')] + \
+               [q for q in params if q.get('piggy') and q['nsend'] == 1 and q['pushes'] == []]
     st, viols, samples, gate = core.run_search(Conduct, params, bound - 1, ctx.workers, ctx.seed)
     st2, viols2, samples2, gate2 = core.run_search(Conduct, deep, bound, ctx.workers, ctx.seed)
     st.merge(st2)
